@@ -193,6 +193,9 @@ pub fn run_case(case: &Case, names: &HashMap<String, u16>) {
         // loop mode (token B0 / B1): like the processing loop, ask can_block_update_idle_waiting before every
         // millisecond; B1 honours the answer (a blocked millisecond runs no tick), B0 ticks regardless
         let mut loop_mode: Option<bool> = None;
+        // one iteration of the processing loop = idle bookkeeping, the input events that arrived, one millisecond:
+        // the first event after a millisecond opens the iteration (with the bookkeeping call), the next `t` millisecond closes it
+        let mut iter_open = false;
         for tok in case.hist.iter() {
             let (kind, rest) = tok.split_at(1);
             match kind {
@@ -210,6 +213,10 @@ pub fn run_case(case: &Case, names: &HashMap<String, u16>) {
                         "r" => KeyValue::Repeat,
                         _ => KeyValue::Tap,
                     };
+                    if loop_mode.is_some() && !iter_open {
+                        let _ = k.can_block_update_idle_waiting(1);
+                        iter_open = true;
+                    }
                     k.handle_input_event(&KeyEvent { code: osc, value }).expect("handle_input_event");
                     // repeat events are written immediately: report them on their own line
                     let mut rep: Vec<String> = vec![];
@@ -245,10 +252,14 @@ pub fn run_case(case: &Case, names: &HashMap<String, u16>) {
                     let n: u64 = rest.parse().unwrap();
                     for _ in 0..n {
                         if let Some(honour) = loop_mode {
-                            let can_block = k.can_block_update_idle_waiting(1);
-                            if can_block && honour {
-                                tick += 1;
-                                continue;
+                            if iter_open {
+                                iter_open = false;
+                            } else {
+                                let can_block = k.can_block_update_idle_waiting(1);
+                                if can_block && honour {
+                                    tick += 1;
+                                    continue;
+                                }
                             }
                         }
                         k.tick_ms(1, &None).expect("tick_ms");
